@@ -21,10 +21,12 @@ import (
 // rewritten sources (sync.Pool is modelled as one LIFO free list, DESIGN §4.2) and judged by
 // the same oracle as the layouts (a.JudgeUpload).
 
-func c19Harness(world string, cfg a.Config, l a.UpLayout) explore.Harness {
+func c19Harness(world string, cfg a.Config, l a.UpLayout, fresh bool) explore.Harness {
 	h := newGWHarness(world, cfg)
+	h.fresh = fresh
 	body, ct := l.Body()
 	return func() (func(), func(*vrt.Sched) (string, string)) {
+		h.begin()
 		var status int
 		var resp []byte
 		done := false
@@ -114,7 +116,8 @@ func init() {
 						Name:  fmt.Sprintf("%s %s | %s PB<=%d", w.world, w.cfg.String(), l.Desc, bound),
 						Atoms: []string{"concurrent-uploads"},
 						Opt:   explore.Options{Bound: bound, Horizon: 200000, Cache: true, GroupDepth: 1},
-						H:     c19Harness(w.world, w.cfg, l),
+						H:     c19Harness(w.world, w.cfg, l, false),
+						Fresh: func() explore.Harness { return c19Harness(w.world, w.cfg, l, true) },
 					})
 				}
 			}
